@@ -21,8 +21,9 @@ Definition is_none_ann (a : ann) : bool := match a with ANone => true | _ => fal
 (* ---------- infer_type_annotation_from_default: the type of an un-annotated parameter, from its default ---------- *)
 Inductive bty := TInt | TStr | TFloat | TBool.
 (* what a default value is: a bool / int / float / str, a tuple of such, or anything else *)
-Inductive dkind := DBool | DInt | DFloat | DStr | DTuple (l : list dkind) | DOther.
-Inductive ity := IB (t : bty) | ITuple (l : list ity) | IFail.        (* IFail: NotImplementedError / not one of these *)
+Inductive dkind := DBool | DInt | DFloat | DStr | DTuple (l : list dkind) | DOther | DList (l : list dkind).   (* DList: a list *)
+Inductive ity := IB (t : bty) | ITuple (l : list ity) | IFail          (* IFail: NotImplementedError / not one of these *)
+             | IList (t : ity) | IListBare.                          (* list[T] from the FIRST item; bare `list` for [] *)
 (* isinstance(default, t): a bool is also an int *)
 Definition isinstance_b (d : dkind) (t : bty) : bool :=
   match d, t with
@@ -42,7 +43,11 @@ Definition infer_scalar (r : infer_rule) (d : dkind) : option bty :=
 Fixpoint infer (r : infer_rule) (d : dkind) : ity :=
   match infer_scalar r d with
   | Some t => IB t
-  | None => match d with DTuple l => ITuple (map (infer r) l) | _ => IFail end
+  | None => match d with
+            | DTuple l => ITuple (map (infer r) l)
+            | DList [] => IListBare
+            | DList (x :: _) => IList (infer r x)
+            | _ => IFail end
   end.
 
 (* ---------- unhashable defaults: dataclasses refuses them as plain defaults ---------- *)
